@@ -74,6 +74,12 @@ check("C19", "exploration", "bench+rfc_response",
       "Trusted: the Capture logging handler sees what a file handler would write; only CR and LF count as line breaks; applications that raise are not judged.",
       "DESIGN.md section 3, C19")
 
+check("C16", "exploration", "config-loads",
+      "exhaustive enumeration, for each of the 93 settings, of every non-empty subset of mentioning sources x every assignment of two distinct valid values, per-source invalid values, config-file selection, and reload histories, each executed as a real WSGIApplication configuration load; oracle = fold by authority over validator-normalised values",
+      "About 5500 real loads: cli > GUNICORN_CMD_ARGS > config file > framework defaults (init() dict) > built-in default must hold for every setting and every combination of mentioning sources (value tables per validator incl. falsy values, append lists, paths, users, callables, dicts), every other setting must keep its default, every invalid value must stop startup, the configuration file is chosen cli -c over env -c over ./gunicorn.conf.py, and a reload after the sources changed must equal a fresh load.",
+      "Trusted: the per-validator value tables; --paste on the command line needs paste.deploy (not installed) and is exercised through the other sources only; check_config/print_config are inert at load time.",
+      "DESIGN.md section 3, C16")
+
 ALL = ["C%02d" % i for i in range(1, 21)]
 for pid in ALL:
     if pid not in CHECKS:
@@ -92,6 +98,8 @@ m = {
     "engines": [
         {"name": "bench+rfc_response", "path": "vlib/bench.py", "serves_properties": ["C02", "C05", "C08", "C09", "C15", "C19"],
          "kind_free_text": "real SyncWorker/ThreadWorker/AsyncWorker.handle() in-process over real sockets, deterministic scripted client; exhaustive product enumeration"},
+        {"name": "config-loads", "path": "props/c16.py", "serves_properties": ["C16"],
+         "kind_free_text": "real configuration loads in child processes with controlled argv / environment / cwd / config file"},
         {"name": "explore+gparse", "path": "vlib/gparse.py", "serves_properties": ["C01", "C06", "C07", "C12"],
          "kind_free_text": "bounded-exhaustive input/segmentation/program enumeration on the real RequestParser"},
     ],
